@@ -161,7 +161,7 @@ def _long_history(rng, how, n, obs, removals=True):
             elif r == 6: ops.append("rml")
             else: ops.append("rm %d" % k)
             if i % step == 0: ops.append("get %d" % rem[-1])
-    pool = None if obs == "lite" else sorted(ks)[:6]
+    pool = None if obs != "full" else sorted(ks)[:6]
     return [_hdr(obs=obs, pool=pool)] + ops + ["END"]
 
 def generate(rng, tier, mode="default"):
@@ -220,7 +220,10 @@ def generate(rng, tier, mode="default"):
         longs.append(_long_history(rng, how, 120 if quick else 400, "full"))
         longs.append(_long_history(rng, how, 1000, "lite"))
         if mode in ("bal", "default") or not quick:
-            longs.append(_long_history(rng, how, 4000 if quick else 20000, "lite"))
+            longs.append(_long_history(rng, how, 4000, "lite"))
+        if mode in ("bal", "default"):
+            # real allocator, constant ledger token, OCaml Map as the ideal object (see d_treetable.ml)
+            longs.append(_long_history(rng, how, 10000 if quick else 100000, "huge"))
     # spread the long traces over the list (the runner splits the list into contiguous chunks, one per core)
     for i, t in enumerate(longs):
         out.insert((i * len(out)) // len(longs), t)
